@@ -1,0 +1,48 @@
+//go:build verif
+
+package chainsync
+
+// Contracts for /verif (contract-based deductive verification). Comment-only.
+
+// Passing the tip on to waiting requesters only moves values over channels.
+//@ func (c *Client) sendCurrentTip(tip)
+//@   pure
+//@   loop 0 invariant true
+
+// C21: a roll-forward message is delivered to the application at most through one callback, with the
+// tip this very message carries at the time of the call; and the "ready for the next request" token that drives request
+// pipelining is produced only for a message that was delivered to the application (callback or
+// block pipeline) - never for a message that only answered a first-block / range query, and a
+// positive token never after a callback that returned an error.
+//@ func (c *Client) handleRollForward(msgGeneric) (err)
+//@   props C21
+//@   attr trackcalls on
+//@   attr safe off
+//@   attr maxpaths 20000
+//@   attr inline 3
+//@   requires typed: c != nil && c.Protocol != nil &&
+//@       (c.Protocol.config.Mode == protocol.ProtocolModeNodeToNode ==> dyn(msgGeneric) == type(*MsgRollForwardNtN)) &&
+//@       (c.Protocol.config.Mode != protocol.ProtocolModeNodeToNode ==> dyn(msgGeneric) == type(*MsgRollForwardNtC))
+//@   let ntn = c.Protocol.config.Mode == protocol.ProtocolModeNodeToNode
+//@   let mn = unbox(msgGeneric, type(*MsgRollForwardNtN))
+//@   let mc = unbox(msgGeneric, type(*MsgRollForwardNtC))
+//@   callback RollForwardFunc requires tipNtN: ntn ==> arg3.BlockNumber == mn.Tip.BlockNumber && arg3.Point.Slot == mn.Tip.Point.Slot && seq(arg3.Point.Hash) == seq(mn.Tip.Point.Hash)
+//@   callback RollForwardFunc requires tipNtC: !ntn ==> arg3.BlockNumber == mc.Tip.BlockNumber && arg3.Point.Slot == mc.Tip.Point.Slot && seq(arg3.Point.Hash) == seq(mc.Tip.Point.Hash)
+//@   callback RollForwardRawFunc requires tipNtN: ntn ==> arg3.BlockNumber == mn.Tip.BlockNumber && arg3.Point.Slot == mn.Tip.Point.Slot && seq(arg3.Point.Hash) == seq(mn.Tip.Point.Hash)
+//@   callback RollForwardRawFunc requires tipNtC: !ntn ==> arg3.BlockNumber == mc.Tip.BlockNumber && arg3.Point.Slot == mc.Tip.Point.Slot && seq(arg3.Point.Hash) == seq(mc.Tip.Point.Hash)
+//@   callback send:readyForNextBlockChan requires delivered: called(RollForwardFunc) || called(RollForwardRawFunc) || called(Submit)
+//@   callback send:readyForNextBlockChan requires positive: arg0 ==> (called(RollForwardFunc) ==> callres(RollForwardFunc) == nil) && (called(RollForwardRawFunc) ==> callres(RollForwardRawFunc) == nil) && (called(Submit) ==> callres(Submit) == nil)
+//@   ensures once: !(called(RollForwardFunc) && called(RollForwardRawFunc))
+
+// C21: a roll-backward message reaches the application with the point and the tip this message
+// carries at the time of the call.
+//@ func (c *Client) handleRollBackward(msgGeneric) (err)
+//@   props C21
+//@   attr trackcalls on
+//@   attr safe off
+//@   attr inline 3
+//@   requires typed: c != nil && dyn(msgGeneric) == type(*MsgRollBackward)
+//@   let m = unbox(msgGeneric, type(*MsgRollBackward))
+//@   callback RollBackwardFunc requires tip: arg2.BlockNumber == m.Tip.BlockNumber && arg2.Point.Slot == m.Tip.Point.Slot && seq(arg2.Point.Hash) == seq(m.Tip.Point.Hash)
+//@   callback RollBackwardFunc requires point: arg1.Slot == m.Point.Slot && seq(arg1.Hash) == seq(m.Point.Hash)
+//@   callback send:readyForNextBlockChan requires positive: arg0 && called(RollBackwardFunc) ==> callres(RollBackwardFunc) == nil
